@@ -465,7 +465,8 @@ theorem admitted_accepts (hS : Setup P c aL aS nL n) (dflt o o' : Flute.Admissio
   refine ⟨?_, ?_, ?_, ?_⟩
   · intro rep hf hc
     obtain ⟨q1, q2⟩ := l1 hf
-    exact rs_accepts rep hS hc (by rw [hp]; exact q1) (by rw [hp]; exact q2)
+    have q2' : aL + o.parity ≤ 255 := q2.1
+    exact rs_accepts rep hS hc (by rw [hp]; exact q1) (by rw [hp]; omega)
   · intro _ hc; exact accepts_of_total hS (by rw [hc]; intro _ _ _; rfl)
   · intro rep _ hc; exact accepts_of_total hS (by rw [hc]; intro _ _ _; rfl)
   · intro rep hf hc hk
